@@ -342,6 +342,12 @@ Definition obs_c10_final_ok (tr : list rev) : bool :=
   forallb (fun l =>
     stream_polled l tr || (told l tr && closed_done l tr) || sink_errored l tr) (server_labels tr).
 
+(** C11 read for repliers at the router: a replier whose registration the router took is never
+    silently abandoned -- by the end of a drained history it was served (its stream was polled), or
+    it was told so with the error frame, or its sink failed.  (Whether it is also closed is C10's.) *)
+Definition obs_c11_replier_answered (tr : list rev) : bool :=
+  forallb (fun l => stream_polled l tr || told l tr || sink_errored l tr) (server_labels tr).
+
 (** end of a drained history of a live router (every sink ready, wake-driven or not): a request
     handed to the replier's sink has also been flushed to it, unless that replier has gone
     (stream ended or failed, sink failed) -- "never sleeps on undone work" for the request leg *)
